@@ -164,6 +164,19 @@ theorem clear_frees_each_once {s : AL} {l : List Val} (inv : Inv s l) :
     ∃ s', AL.clear s true = .ok (s', l.filter (· ≠ 0)) ∧ Inv s' [] := by
   simpa [specClear] using clear_refines inv true
 
+/-- **Ownership, every history.** On a list created by `init`, if every remove /
+clear passes the free callback then, as multisets of non-NULL data, what the history
+stored = what the callback received + what is still in the list at the end (the
+callback log `freedBy rs` and the final contents being those of the C model's run):
+nothing is released twice, nothing is dropped without the callback. -/
+theorem array_list_ownership {c : Nat} {s : AL} (h : init c = some s) (ops : List Op)
+    (hsmall : ops.length < 2 ^ 30) (hall : AllFree ops) :
+    ∃ s' rs final, run s ops = .ok (s', rs) ∧ contents s' = .ok final ∧
+      List.Perm ((stored ops rs).filter (· ≠ 0)) ((freedBy rs ++ final).filter (· ≠ 0)) := by
+  obtain ⟨s', hr, inv'⟩ := array_list_behaves_as_sequence h ops hsmall
+  refine ⟨s', _, _, hr, contents_refines inv', ?_⟩
+  simpa using spec_ownership ops [] hall
+
 /-! non-vacuity: a concrete history with growth, negative indices and a rejected position -/
 example : ∃ s, init 1 = some s ∧
     (specRun [] [.append (-1) 5, .insert 0 6, .append (-1) 7, .insert 3 9, .remove (-3) true,
